@@ -19,6 +19,9 @@ structure Static.WF (S : Static) : Prop where
   /-- the mock components are not real components -/
   pseudo_fresh : alookup S.parent pseudoExternal = none ∧ alookup S.parent pseudoExpose = none ∧
     S.isSys pseudoExternal = false ∧ S.isSys pseudoExpose = false
+  /-- every system is itself a component somewhere, and nesting is well-founded -/
+  sys_parent : ∀ c, S.isSys c = true → (alookup S.parent c).isSome
+  nesting : ∃ depth : Comp → Nat, ∀ c p, alookup S.parent c = some p → p ≠ "" → depth p < depth c
   /-- the inverse tree is defined for every component of every level (always true for wirings
   built by `Wiring.fromInverse`; see C16 `ups_isSome_iff`) -/
   ups_defined : ∀ L ∈ S.levels, ∀ c ∈ L.wiring.components, (L.wiring.ups c).isSome
